@@ -10,8 +10,8 @@ of every fetchable's checksum mapping; file and distfile names are whitespace-fr
 Oracle (independent: hashlib over the bytes the harness wrote + the generated distfile table):
  1. `parse_manifest(Manifest)` and a line parser of my own both equal the expected {type: {name: {size, chf..}}}.
  2. regenerating from scratch with a different listing/argument order gives byte-identical text.
- 3. a further `update()` returns False, leaves bytes, inode and mtime_ns alone (crash cases: the audit log of that
-    call contains no mutating event at all).
+ 3. a further `update()` with the very same fetchable objects returns False, leaves bytes, inode and mtime_ns alone,
+    its audit log contains no mutating event at all, and the caller's fetchables (chksums dicts) are unchanged.
  4. after the edit, `update()` returns True iff the expected content changed and the file then parses to the
     new expectation; thin mode without distfiles writes nothing.
  5. crash cases: `update()` onto the stale (or missing) Manifest is stopped before/after/with EIO at each
@@ -29,7 +29,8 @@ from contextlib import contextmanager
 
 from hypothesis import strategies as st
 
-from .. import core, crash
+from .. import core
+from ..ref import faultpoints as fp
 
 ID = "C28"
 TITLE = "Manifest generation is deterministic, idempotent, parseable and atomic"
@@ -291,13 +292,14 @@ class Env:
         random.Random(seed).shuffle(l)
         return l
 
-    def update(self, case, pkgdir, dist, seed):
-        """one Manifest.update() the way repo_operations drives it; the shuffle seed only picks orders"""
+    def update(self, case, pkgdir, dist, seed, fetchables=None):
+        """one Manifest.update() the way repo_operations drives it; the shuffle seed only picks orders.
+        `fetchables`: re-use these objects (the caller's, as pmaint does for every package of a run)"""
         m = self.digest.Manifest(os.path.join(pkgdir, "Manifest"), thin=case["thin"], allow_missing=True)
         with self.shuffled_scan(seed):
             # callers list 'size' first; the order of the other hash names is theirs (manifest-hashes in layout.conf)
             chfs = tuple(case["chfs"][:1] + self.reorder(case["chfs"][1:], seed))
-            return m.update(self.fetchables(dist, seed), chfs=chfs)
+            return m.update(self.fetchables(dist, seed) if fetchables is None else fetchables, chfs=chfs)
 
 
 def _write_tree(pkgdir, items):
@@ -416,9 +418,9 @@ def _check(ctx, env, case, pkgdir, tree1, tree2, exp1, exp2):
     _write_tree(pkgdir, tree1.items())
     writes1 = not (case["thin"] and not case["dist"])
 
-    def upd(dist, s, d=pkgdir):
+    def upd(dist, s, d=pkgdir, fetchables=None):
         try:
-            return core.guarded(ctx, case, lambda: env.update(case, d, dist, s), expected=(env.errors.ParseChksumError,))
+            return core.guarded(ctx, case, lambda: env.update(case, d, dist, s, fetchables), expected=(env.errors.ParseChksumError,))
         except env.errors.ParseChksumError as e:
             ctx.violation("update:parse-error", case, f"update() raised {e}")
             return core._CRASHED
@@ -439,7 +441,9 @@ def _check(ctx, env, case, pkgdir, tree1, tree2, exp1, exp2):
         text1 = _read_bytes(mpath)
         # 2. determinism across listing / argument order
         os.unlink(mpath)
-        r = upd(case["dist"], seed + 1)
+        mine = env.fetchables(case["dist"], seed + 1)  # the caller's objects, re-used below
+        snap = [(f.filename, dict(f.chksums)) for f in mine]
+        r = upd(case["dist"], seed + 1, fetchables=mine)
         if core.crashed(r):
             return evals
         evals += 1
@@ -447,25 +451,23 @@ def _check(ctx, env, case, pkgdir, tree1, tree2, exp1, exp2):
         if text2 != text1:
             ctx.violation("determinism:order-dependent-text", case, f"regeneration with another listing/argument order gave {text2!r} instead of {text1!r}")
             return evals
-        # 3. idempotence
+        # 3. idempotence: same inputs (the very same fetchable objects) again -> False, no mutating event at all
         st0 = os.stat(mpath)
-        r = upd(case["dist"], seed + 2)
-        if core.crashed(r):
-            return evals
+        ret = []
+        res = fp.log_run(lambda: ret.append(env.update(case, pkgdir, case["dist"], seed + 2, mine)), [pkgdir])
         evals += 1
         st1 = os.stat(mpath)
-        if r is not False:
-            ctx.violation("idempotence:reports-write", case, f"update() on an up-to-date Manifest returned {r!r}")
+        if res.status != "completed":
+            ctx.violation("idempotence:raised:" + (res.exc or "?").split(":")[0], case, f"update() on an up-to-date Manifest with the caller's fetchables re-used: {res.exc}")
+        elif ret[0] is not False:
+            ctx.violation("idempotence:reports-write", case, f"update() on an up-to-date Manifest returned {ret[0]!r}")
+        if res.events:
+            ctx.violation("idempotence:mutating-events", case, f"up-to-date update() performed {res.events}")
         if _read_bytes(mpath) != text1 or (st0.st_ino, st0.st_mtime_ns) != (st1.st_ino, st1.st_mtime_ns):
             ctx.violation("idempotence:file-touched", case, "update() on an up-to-date Manifest rewrote the file")
-        if case["crash"]:
-            def op():
-                if env.update(case, pkgdir, case["dist"], seed + 3) is not False:
-                    raise AssertionError("update returned True")
-            res = crash.dry_run(op, [pkgdir])
-            evals += 1
-            if res.status != "completed" or res.events:
-                ctx.violation("idempotence:mutating-events", case, f"up-to-date update(): status={res.status} exc={res.exc} events={res.events}")
+        now = [(f.filename, dict(f.chksums)) for f in mine]
+        if now != snap:
+            ctx.violation("update:mutates-fetchable-chksums", case, f"update() changed the caller's fetchables: {snap!r} -> {now!r}")
     # 4./5. the edit
     for p in case["edit"]["del"]:
         if os.path.lexists(os.path.join(pkgdir, p)):
@@ -503,7 +505,7 @@ def _crash_part(ctx, env, case, pristine, dist2, old, exp2, writes2):
             return w
 
         w = fresh("dry")
-        dry = crash.dry_run(lambda: env.update(case, w, dist2, seed), [w])
+        dry = fp.log_run(lambda: env.update(case, w, dist2, seed), [w])
         evals += 1
         if dry.status != "completed":
             ctx.violation("update:raised:" + (dry.exc or dry.status).split(":")[0], case, f"update() without injection: {dry.status} {dry.exc}")
@@ -517,33 +519,55 @@ def _crash_part(ctx, env, case, pristine, dist2, old, exp2, writes2):
             ctx.violation("update:unexpected-rewrite", case, "nothing to change, yet the Manifest bytes changed")
             return evals
         ctx.count("events_total", len(dry.events))
-        for k, mode in crash.points(dry.events):
-            if ctx.deadline is not None and ctx.out_of_time():
-                ctx.count("enumeration_cut_by_budget")
-                break
-            w = fresh(f"{k}{mode}")
-            res = crash.inject(lambda w=w: env.update(case, w, dist2, seed), [w], k, mode)
-            if res.status in ("died", "not-reached"):
-                raise core.HarnessError(f"injection {k}/{mode} ended {res.status}")
+        for k, mode, res, w in fp.injections(ctx, dry.events, fresh, lambda w: (lambda: env.update(case, w, dist2, seed))):
             ev = dry.events[k - 1]
             what = f"{mode} event {k}/{len(dry.events)} {ev['ev']} {ev.get('path')}"
-            if res.status == "raised" and mode != "eio":
-                raise core.HarnessError(f"{what}: update raised without a fault: {res.exc}")
             got = _read_bytes(os.path.join(w, "Manifest"))
             evals += 1
-            ctx.count(f"inject_{mode}")
             if got != old and got != new:
                 kind = "truncated" if got == b"" else ("missing" if got is None else "partial")
                 ctx.violation(f"atomic:manifest-{kind}", case, f"{what}: Manifest is {got!r}; old={old!r} new={new!r}")
             elif res.status == "completed" and got != new:
                 ctx.violation("atomic:completed-update-not-visible", case, f"{what}: update() returned but the Manifest is still the old one")
-            shutil.rmtree(w, ignore_errors=True)
     finally:
         shutil.rmtree(base, ignore_errors=True)
     return evals
 
 
 # ---------------------------------------------------------------- runner glue
+
+def smoke_cases():
+    """small deterministic family run first on every run: hash names handed over non-alphabetically, non-ASCII file and
+    distfile names, nested files/ subdirectories with equal basenames, VCS noise, thin and thick, the caller's fetchables
+    re-used for the up-to-date regeneration, and a rewrite under full crash/EIO enumeration"""
+    h = lambda b: b.hex()  # noqa: E731
+    tree = [
+        ["pkg-1.0.ebuild", h(b"EAPI=8\n")], ["pkg-1.1-r1.ebuild", h(b"EAPI=8\nSLOT=1\n")],
+        ["metadata.xml", h(b"<pkgmetadata/>\n")], ["ChangeLog", h(b"")],
+        ["files/pkg", h(b"top\n")], ["files/init.d/pkg", h(b"init\n")], ["files/conf.d/pkg", h(b"conf\n")],
+        ["files/patches/2.0/fix.patch", h(b"patch\n")], ["files/gr\u00f6\u00dfe-fix.patch", h(b"x" * 300)],
+        ["files/x.ebuild", h(b"not an ebuild\n")], ["CVS/Entries", h(b"noise")], ["files/CVS/Root", h(b"noise")],
+    ]
+    out = []
+    for thin in (False, True):
+        for hashes in (["sha512", "blake2b"], ["sha512", "sha256", "blake2b"], ["md5"]):
+            dist = [
+                ["pkg-1.0.tar.gz", 7853169, {x: "1f" * 3 for x in hashes}],
+                ["na\u00efve-1.0.tar.gz", 1234, {hashes[0]: "0"}],
+                ["B.tar.bz2", 0, {x: "abc" for x in reversed(hashes)}],
+            ]
+            dist2 = dist[:2] + [["extra.tar", 5, {hashes[0]: "5"}]]
+            edit = {"set": [["pkg-1.0.ebuild", h(b"EAPI=8\n# changed\n")], ["files/conf.d/new", h(b"n")]],
+                    "del": ["files/init.d/pkg"], "dist": dist2}
+            for crash_case in (False, True):
+                if crash_case and hashes != ["sha512", "blake2b"]:
+                    continue
+                out.append({"thin": thin, "chfs": ["size"] + hashes, "tree": tree, "dist": dist, "edit": edit,
+                            "perm": len(out), "crash": crash_case, "fresh": False})
+    out.append({"thin": False, "chfs": ["size", "sha512", "blake2b"], "tree": tree[:3], "dist": [], "perm": 1,
+                "edit": {"set": [], "del": [], "dist": []}, "crash": True, "fresh": True})
+    return out
+
 
 def _interleave(a, b):
     """alternate the two task kinds so that both make progress whatever the job count / budget"""
@@ -554,17 +578,24 @@ def _interleave(a, b):
 
 
 def plan(tier, seed):
+    # quick is sized for the verification host (forked injections ~0.1 s each and not scaling over workers, threaded
+    # hashing inside update()); thorough keeps the full sizes
     if tier == "quick":
-        return _interleave([{"task": "gen", "examples": 160} for _ in range(8)], [{"task": "crash", "examples": 30} for _ in range(8)])
-    return _interleave([{"task": "gen", "examples": 6000} for _ in range(16)], [{"task": "crash", "examples": 1500} for _ in range(16)])
+        return [{"task": "smoke"}] + _interleave([{"task": "gen", "examples": 60} for _ in range(8)],
+                                                  [{"task": "crash", "examples": 16} for _ in range(4)])
+    return [{"task": "smoke"}] + _interleave([{"task": "gen", "examples": 6000} for _ in range(16)],
+                                              [{"task": "crash", "examples": 1500} for _ in range(16)])
 
 
 def run_task(ctx, task, **kw):
     env = Env()
-    if task == "gen":
-        core.hyp_run(ctx, cases(False), lambda c: None if ctx.out_of_time() else check_case(ctx, c, env), kw["examples"], chunk=125)
+    if task == "smoke":
+        for c in smoke_cases():
+            check_case(ctx, c, env)
+    elif task == "gen":
+        core.hyp_run(ctx, cases(False), lambda c: None if ctx.out_of_time() else check_case(ctx, c, env), kw["examples"], chunk=60)
     elif task == "crash":
-        core.hyp_run(ctx, cases(True), lambda c: None if ctx.out_of_time() else check_case(ctx, c, env), kw["examples"], chunk=40, seed_salt=7)
+        core.hyp_run(ctx, cases(True), lambda c: None if ctx.out_of_time() else check_case(ctx, c, env), kw["examples"], chunk=16, seed_salt=7)
     else:
         raise core.HarnessError(f"unknown task {task}")
 
